@@ -85,7 +85,7 @@ fn make(kind: &str, m: usize) -> Arc<dyn MultiApi> {
 }
 
 fn filter_cancel(tag: &str) -> bool {
-    filter(tag) || matches!(tag, "sm.cancelall.read" | "sm.cancel" | "sm.flag" | "sm.reg.cmp" | "sm.reg.lock" | "sm.reg.store" | "sm.reg.selfwake" | "sm.wake" | "sm.wake.lock" | "sm.wake.retry")
+    filter(tag) || matches!(tag, "sm.cancelall.lock" | "sm.cancelall.unlock" | "sm.cancelall.read" | "sm.cancel" | "sm.flag" | "sm.reg.cmp" | "sm.reg.lock" | "sm.reg.store" | "sm.reg.selfwake" | "sm.wake" | "sm.wake.lock" | "sm.wake.retry")
 }
 fn filter(tag: &str) -> bool {
     matches!(tag, "sm.create.count" | "sm.create.vacant" | "sm.create.flag" | "sm.drop.count" | "sm.drop.vacant" | "sm.sync.lock" | "sm.sync.peek"
